@@ -76,12 +76,15 @@ class ComponentLevel2( ComponentLevel1 ):
     According to the convention, we can cache the information of a
     function in the *class object* to avoid redundant parsing. """
     cls = s.__class__
-    try:
+    # The cache belongs to this very class. Looking the attributes up through
+    # the class hierarchy would hand a subclass the entries of its base
+    # class, which may define a block of the same name with another body.
+    if '_name_info' in cls.__dict__:
       name_info = cls._name_info
       name_rd   = cls._name_rd
       name_wr   = cls._name_wr
       name_fc   = cls._name_fc
-    except Exception:
+    else:
       name_info = cls._name_info = {}
       name_rd   = cls._name_rd  = {}
       name_wr   = cls._name_wr  = {}
